@@ -2,6 +2,10 @@
 
 use crate::{model::beatmap::Beatmap, Difficulty};
 
+pub use super::convert::verif::{
+    stacking_probe_map, stacking_probe_synth, StackProbe, StackProbeObject, StackSynthKind,
+};
+
 use super::{
     attributes::OsuDifficultyAttributes,
     convert::convert_objects,
